@@ -51,3 +51,25 @@ Proof.
   - repeat constructor; discriminate.
   - intro H. inversion H as [|? ? H1 H2]. apply H1. reflexivity.
 Qed.
+
+From Muxide Require Export Model.Api Model.Frag Proofs.SinkProofs Proofs.HistoryProofs.
+(* WHOLE HISTORIES: whatever the sink script does, after any call history the accepted bytes are a
+   prefix of what the fault-free sink holds after the same history *)
+Theorem C13_faulty_history_is_prefix_of_fault_free : forall b script m0 m0' ops,
+  build b script = inl m0 -> build b [] = inl m0' ->
+  exists rest, sink_of (fst (run m0' ops)) = sink_of (fst (run m0 ops)) ++ rest.
+Proof. exact faulty_history_is_prefix_of_fault_free. Qed.
+Print Assumptions C13_faulty_history_is_prefix_of_fault_free.
+
+(* a sink that only shortens / interrupts writes gives the same results, statistics and bytes *)
+Theorem C13_benign_history_same_as_fault_free : forall b script m0 m0' ops,
+  benign script -> build b script = inl m0 -> build b [] = inl m0' ->
+  snd (run m0 ops) = snd (run m0' ops) /\ sink_of (fst (run m0 ops)) = sink_of (fst (run m0' ops)).
+Proof. exact benign_history_same_as_fault_free. Qed.
+Print Assumptions C13_benign_history_same_as_fault_free.
+
+(* after a finish attempt got past its argument checks, no later call writes anything *)
+Theorem C13_nothing_is_written_after_finalization : forall m ops,
+  w_finalized (m_writer m) = true -> sink_of (fst (run m ops)) = sink_of m.
+Proof. exact nothing_is_written_after_finalization. Qed.
+Print Assumptions C13_nothing_is_written_after_finalization.
